@@ -31,6 +31,52 @@ macro_rules! contract_code {
     }};
 }
 
+// ---------------------------------------------------------------------------------- fixtures
+// Storage written by the code as released (the tree /verif was built against): `fixtures/<sys>.ndjson`, one
+// line per state {cfg, now, names, raw:[[key,value]..] (base64), obs}.  A fixture run instantiates the contract
+// under test, swaps its storage for the recorded one and carries on from there: whatever the current code reads
+// out of it must be what the release wrote into it (upgrade of a deployed contract, DESIGN 15.3).
+thread_local! {
+    pub static FIXTURES: RefCell<BTreeMap<String, Vec<Value>>> = RefCell::new(BTreeMap::new());
+}
+pub fn load_fixtures(dir: &str) {
+    for sys in ["cw20", "cw1", "ics20"] {
+        let p = format!("{dir}/{sys}.ndjson");
+        if let Ok(txt) = std::fs::read_to_string(&p) {
+            let v: Vec<Value> = txt.lines().filter(|l| !l.trim().is_empty()).map(|l| serde_json::from_str(l).unwrap_or_else(|e| panic!("bad fixture line in {p}: {e}"))).collect();
+            FIXTURES.with(|f| f.borrow_mut().insert(sys.to_string(), v));
+        }
+    }
+}
+pub fn fixture_count(sys: &str) -> usize {
+    FIXTURES.with(|f| f.borrow().get(sys).map(|v| v.len()).unwrap_or(0))
+}
+pub fn fixture(sys: &str, k: usize) -> Option<Value> {
+    FIXTURES.with(|f| f.borrow().get(sys).and_then(|v| v.get(k).cloned()))
+}
+pub fn dump_raw(w: &World, c: &Addr) -> Value {
+    Value::Array(w.app.dump_wasm_raw(c).into_iter().map(|(k, v)| json!([Binary::from(k).to_base64(), Binary::from(v).to_base64()])).collect())
+}
+/// replaces the whole storage of `c` (a `Recorded` contract: raw writes go through its sudo)
+pub fn load_raw(w: &mut World, c: &Addr, raw: &Value) {
+    for (k, _) in w.app.dump_wasm_raw(c) {
+        w.app.wasm_sudo(c.clone(), &RawOp::RawRemove { key: Binary::from(k) }).unwrap();
+    }
+    for kv in raw.as_array().unwrap() {
+        let k = Binary::from_base64(kv[0].as_str().unwrap()).unwrap();
+        let v = Binary::from_base64(kv[1].as_str().unwrap()).unwrap();
+        w.app.wasm_sudo(c.clone(), &RawOp::RawSet { key: k, value: v }).unwrap();
+    }
+}
+/// name -> address of every registered party: a fixture only fits a world that names the same addresses
+pub fn names_of(w: &World) -> Value {
+    let mut m = Map::new();
+    for (a, n) in &w.names {
+        m.insert(n.clone(), json!(a));
+    }
+    Value::Object(m)
+}
+
 // ------------------------------------------------------------------------------------------ rng
 /// splitmix64 — deterministic, seedable, no external crate.
 #[derive(Clone)]
